@@ -372,6 +372,11 @@ impl Sut {
                 let fb = self.free_positions();
                 let tokn = self.ids.len() as u32;
                 let snap = self.arena.clone();
+                // (the snapshot oracles below need a faithful clone; a clone that differs from its original is C13's)
+                let snap_ok = snap == self.arena;
+                if !snap_ok {
+                    bad!(self, ["C13"], "a clone does not compare equal to its original".into());
+                }
                 let log = self.log.clone();
                 let r = catch_unwind(AssertUnwindSafe(|| pid.append_value(Tok(tokn, log), &mut self.arena)));
                 let alive = self.model.nodes[*p].alive;
@@ -380,7 +385,7 @@ impl Sut {
                         if alive {
                             return Err(v(&["C05"], format!("append_value on live node {} panicked", p)));
                         }
-                        if self.arena != snap {
+                        if snap_ok && self.arena != snap {
                             return Err(v(&["C05", "C12"], format!("append_value on removed node {} panicked but changed the arena", p)));
                         }
                         // the payload moved into the call is dropped by the unwinding: forget it in the log
@@ -403,6 +408,11 @@ impl Sut {
                 let imp = self.model.impossible(*a, *b);
                 let involves_removed = !self.model.nodes[*a].alive || !self.model.nodes[*b].alive;
                 let snap = self.arena.clone();
+                // (the snapshot oracles below need a faithful clone; a clone that differs from its original is C13's)
+                let snap_ok = snap == self.arena;
+                if !snap_ok {
+                    bad!(self, ["C13"], "a clone does not compare equal to its original".into());
+                }
                 let checked = matches!(op, Op::Checked(..));
                 let arena = &mut self.arena;
                 let r = catch_unwind(AssertUnwindSafe(|| -> Result<(), String> {
@@ -438,7 +448,7 @@ impl Sut {
                         if !imp {
                             return Err(v(&props, format!("{} panicked although the request is possible", op_str(op))));
                         }
-                        if self.arena != snap {
+                        if snap_ok && self.arena != snap {
                             return Err(v(&props, format!("{} panicked but changed the arena", op_str(op))));
                         }
                     }
@@ -446,7 +456,7 @@ impl Sut {
                         if !imp {
                             return Err(v(&props, format!("{} failed with {} although the request is possible", op_str(op), e)));
                         }
-                        if self.arena != snap {
+                        if snap_ok && self.arena != snap {
                             return Err(v(&props, format!("{} failed with {} but changed the arena", op_str(op), e)));
                         }
                         let ok_reason = (a == b && e.ends_with("Self"))
